@@ -216,6 +216,7 @@ func sshCase(c *h.Case) {
 			return
 		}
 		run.Count("ssh_positive_ok", 1)
+		si.SSHLogins.Add(1)
 		return
 	}
 	run.Count("ssh_refused_attempts", 1)
@@ -239,4 +240,29 @@ func sshCase(c *h.Case) {
 			c.Violation("ssh-gateway-session-without-credentials", "[%s] after refused ssh attempt %q the session table holds user %q", si.Name, v, s.User)
 		}
 	}
+}
+
+// sshLegitLogin performs one legitimate login through the gateway of si (authorized key / right token) and
+// waits until its session is gone again; up to 5 attempts (the gateway gives its virtual client 1 s to come up).
+func sshLegitLogin(si *srvInfo, tag string) bool {
+	for i := 0; i < 5; i++ {
+		watch := fmt.Sprintf("%sssh%d", tag, i)
+		payload := fmt.Sprintf("tcp --remote_port 0 --proxy_name %s --user %su", watch, watch)
+		auth := []ssh.AuthMethod{}
+		if si.SSHKeys {
+			auth = []ssh.AuthMethod{ssh.PublicKeys(sshKnownSigner)}
+		} else {
+			payload += " --token " + token
+		}
+		res := sshAttempt(si, auth, payload, watch, 8*time.Second, true)
+		if res.sawState != "" && res.tunnelErr == nil && strings.HasPrefix(res.tunnelID, "SSH|") {
+			si.SSHLogins.Add(1)
+			run.Count("ssh_positive_ok", 1)
+			h.Eventually(15*time.Second, func() bool { return len(si.S.Snapshot().Sessions) <= 1 })
+			return true
+		}
+		time.Sleep(200 * time.Millisecond)
+	}
+	run.Inconclusive("legitimate ssh gateway login did not come up on " + si.Name)
+	return false
 }
